@@ -693,12 +693,13 @@ def model_cases(rng, tier):
         yield Case("pure_ripemd160 " + arg(m), (lambda m=m: call19(R.ripemd160, m)))
     for m in (msgs[:131] + msgs[183:194] + msgs[-3:] if tier == "quick" else msgs[:400] + msgs[-40:]):
         yield Case("spec_ripemd160 " + arg(m), (lambda m=m: call19(R.ripemd160, m)))
+    for m in [msgs[n] for n in (0, 1, 55, 56, 63, 64, 65, 119, 120, 130, 200)]:
+        for kind in PRESENTATIONS:      # the same bytes as bytes subclass / bytearray / memoryview
+            yield Case("pure_ripemd160 " + arg(m), (lambda m=m, kind=kind: call19(R.ripemd160, present_bytes(m, kind))), meta=kind)
     # B. pycoin.encoding.hash in every configuration (worker processes) against selection + oracle/model
     for cfg, rows in cfgres.items():
         for fn, d, r in rows:
             fn, _, kind = fn.partition("@")
-            if kind == "memoryview":
-                continue          # direct check only (known finding bundled-ripemd160-memoryview)
             if fn == "choice":
                 yield Case("choice " + cfg_args(cfg), (lambda r=r: r), meta=cfg_name(cfg))
             elif fn == "ripemd160":
@@ -885,18 +886,10 @@ def replay_input(check, inp):
 
 
 def classify(pc, r):
-    # the bundled implementation concatenates `data[...] + pad`: a memoryview raises TypeError (hashlib accepts it)
-    if pc.name == "bundled_presentation" and pc.inp.get("kind") == "memoryview" and r.get("kind") == "bundled-ripemd160-raises" \
-            and r.get("exc") == "TypeError":
-        return "bundled-ripemd160-memoryview"
-    if pc.name == "config_digest" and pc.inp.get("fn") == "ripemd160@memoryview" and r.get("got") == "!E_TYPE":
-        return "bundled-ripemd160-memoryview"
     return None
 
 
-KNOWN_REPLAYS = {
-    "bundled-ripemd160-memoryview": lambda: chk_bundled_presentation("616263", "memoryview"),
-}
+KNOWN_REPLAYS = {}
 
 
 def _parse(tok):
